@@ -282,6 +282,11 @@ def reserved_flow(ctx, rep, cl):
 
     def as_given(t):
             """rw itself, or set()/list()/frozenset() of it: the words are not transformed"""
+            m_ = t
+            while m_[0] == "mut":
+                if m_[2] in ("update", "__ior__", "extend", "union_update") and any(as_given(a) for a in m_[3]):
+                    return True  # a local set updated with the words and then stored / returned
+                m_ = m_[1]
             t = strip_mut(t)
             if t == rw:
                 return True
